@@ -489,4 +489,242 @@ theorem arrayEq_symm (q1 : Qty) (v1 : PyVal) (q2 : Qty) (v2 : PyVal) :
       simp only [elemsEq_symm t1 t2]
       rw [pyEq_symm q1 q2]
 
+/-! ### quantities with a caption, derived quantities (C19: the quantity-first forms) -/
+
+/-- every object `_InternalCreateWithQuantity(q, x)` builds holds the quantity `q` it was given -/
+theorem internalCreate_q {db : Db} {cls : Cls} {q : Qty} {x : PyVal} {o : Obj}
+    (h : internalCreate db cls q x = .ok o) : o.q = q := by
+  cases cls with
+  | scalar =>
+    simp only [internalCreate, scalarInternal] at h
+    split at h
+    · split at h
+      · cases h; rfl
+      · cases h
+    · split at h
+      · cases h; rfl
+      · cases h
+  | fraction =>
+    simp only [internalCreate, fractionInternal] at h
+    split at h
+    · cases h; rfl
+    · split at h
+      · cases h; rfl
+      · cases h
+  | array =>
+    simp only [internalCreate, arrayInternal] at h
+    split at h
+    · cases h; rfl
+    · cases h
+  | fixed d =>
+    simp only [internalCreate, fixedInternal] at h
+    split at h
+    · cases h
+    · split at h
+      · cases h
+      · split at h
+        · cases h
+        · split at h
+          · cases h
+          · cases h; rfl
+
+theorem dimGuard_ok {cls : Cls} {r : Except ErrKind Obj} {o : Obj} (h : dimGuard cls r = .ok o) : r = .ok o := by
+  cases cls with
+  | fixed d =>
+    simp only [dimGuard] at h
+    split at h
+    · cases h
+    · exact h
+  | scalar => exact h
+  | array => exact h
+  | fraction => exact h
+
+/-- `Quantity.__init__` stores the caption it was given -/
+theorem newQuantityC_caption {db : Db} {category : Atom} {u : Sym} {cap : Atom} {q : Qty}
+    (h : newQuantityC db category u cap = .ok q) : capOf cap = .ok q.caption := by
+  simp only [newQuantityC] at h
+  split at h
+  · cases h
+  · rename_i cp hcp
+    rw [hcp]
+    split at h
+    · split at h
+      · cases h
+      · split at h
+        · cases h
+        · simp only [finishQuantityC] at h
+          split at h
+          · cases h; rfl
+          · cases h
+    · cases h
+
+theorem obtainDefaultC_caption {db : Db} {u : Sym} {cap : Atom} {q : Qty}
+    (h : obtainDefaultC db u cap = .ok q) : capOf cap = .ok q.caption := by
+  simp only [obtainDefaultC] at h
+  split at h
+  · cases h
+  · split at h
+    · exact newQuantityC_caption h
+    · split at h
+      · split at h
+        · cases h
+        · exact newQuantityC_caption h
+      · cases h
+
+theorem obtainNonStrC_caption {db : Db} {category cap : Atom} {q : Qty}
+    (h : obtainNonStrC db category cap = .ok q) : capOf cap = .ok q.caption := by
+  simp only [obtainNonStrC] at h
+  split at h
+  · cases h
+  · split at h
+    · cases h
+    · exact newQuantityC_caption h
+
+theorem obtainAtomC_caption {db : Db} {unit category cap : Atom} {q : Qty}
+    (h : obtainAtomC db unit category cap = .ok q) : capOf cap = .ok q.caption := by
+  simp only [obtainAtomC] at h
+  split at h
+  · split at h
+    · exact obtainDefaultC_caption h
+    · exact newQuantityC_caption h
+  · exact obtainNonStrC_caption h
+
+theorem obtainRowsC_caption {db : Db} {rows : List (List Atom)} {category cap : Atom} {q : Qty}
+    (h : obtainRowsC db rows category cap = .ok q) : capOf cap = .ok q.caption := by
+  simp only [obtainRowsC] at h
+  split at h
+  · split at h
+    · split at h
+      · exact obtainAtomC_caption h
+      · cases h
+    · cases h
+  · cases h
+
+/-- **`ObtainQuantity(unit, category, caption)` returns a quantity that carries the caption**, whatever
+the kind of the unit argument and whether the category is given or left to the unit's default -/
+theorem obtainQuantityC_caption {db : Db} {unit : PyVal} {category cap : Atom} {q : Qty}
+    (h : obtainQuantityC db unit category cap = .ok q) : capOf cap = .ok q.caption := by
+  simp only [obtainQuantityC] at h
+  split at h
+  · cases h
+  · cases h
+  · exact obtainRowsC_caption h
+  · exact obtainRowsC_caption h
+  · exact obtainAtomC_caption h
+  · split at h
+    · cases h
+    · exact obtainNonStrC_caption h
+
+theorem obtainDict_caption {db : Db} {items : List (Sym × Sym × Int)} {cap : Atom} {q : Qty}
+    (h : obtainDict db items cap = .ok q) : capOf cap = .ok q.caption := by
+  simp only [obtainDict] at h
+  split at h
+  · exact newQuantityC_caption h
+  · split at h
+    · cases h
+    · split at h
+      · cases h
+      · rename_i cp hcp
+        cases h; exact hcp
+
+/-- `a == b` is `True` only for objects whose quantities are `==` -/
+theorem objEq_pyEq {a b : Obj} (h : Obj.eq a b = .ok true) : a.q.pyEq b.q = true := by
+  obtain ⟨qa, va⟩ := a
+  obtain ⟨qb, vb⟩ := b
+  cases va <;> cases vb <;> simp only [Obj.eq] at h
+  all_goals first
+    | (cases h; done)
+    | (simp only [Except.ok.injEq, Bool.and_eq_true] at h; exact h.2)
+    | skip
+  · simp only [arrayEq] at h
+    split at h
+    · cases h
+    · split at h
+      · cases h
+      · simp only [Except.ok.injEq, Bool.and_eq_true] at h; exact h.2
+  · split at h
+    · cases h
+    · rename_i r hr
+      simp only [Except.ok.injEq, Bool.and_eq_true] at h
+      have hr' := h.1; subst hr'
+      simp only [arrayEq] at hr
+      split at hr
+      · cases hr
+      · split at hr
+        · cases hr
+        · simp only [Except.ok.injEq, Bool.and_eq_true] at hr; exact hr.2
+
+/-! ### histories on a private database (C19: every reachable state) -/
+
+theorem hrun_eq_run (lg : List (Sym × Sym)) : ∀ (ops : List HOp) (r : Reg.Registry),
+    hrun lg r ops = Reg.run lg r (regsOf ops)
+  | [], _ => rfl
+  | .reg op :: ops, r => by simp only [hrun, regsOf, Reg.run, hstep]; exact hrun_eq_run lg ops _
+  | .defcat u :: ops, r => by simp only [hrun, regsOf, hstep]; exact hrun_eq_run lg ops _
+  | .calls cs :: ops, r => by simp only [hrun, regsOf, hstep]; exact hrun_eq_run lg ops _
+
+theorem hrun_append (lg : List (Sym × Sym)) : ∀ (ops ops' : List HOp) (r : Reg.Registry),
+    hrun lg r (ops ++ ops') = hrun lg (hrun lg r ops) ops'
+  | [], _, _ => rfl
+  | op :: ops, ops', r => by simp only [List.cons_append, hrun]; exact hrun_append lg ops ops' _
+
+theorem houts_append (lg : List (Sym × Sym)) : ∀ (ops ops' : List HOp) (r : Reg.Registry),
+    houts lg r (ops ++ ops') = houts lg r ops ++ houts lg (hrun lg r ops) ops'
+  | [], _, _ => rfl
+  | op :: ops, ops', r => by
+    simp only [List.cons_append, houts, hrun]; rw [houts_append lg ops ops' _]
+
+/-- `catSet` stores the row under its name -/
+theorem catGet_catSet (info : CatRow) : ∀ cs : List CatRow,
+    (Reg.catSet cs info).find? (·.name == info.name) = some info
+  | [] => by simp [Reg.catSet]
+  | ci :: cs => by
+    simp only [Reg.catSet]
+    split
+    · simp
+    · rename_i hne
+      have : (ci.name == info.name) = false := by simpa using hne
+      simp only [List.find?_cons, this]
+      exact catGet_catSet info cs
+
+/-- `Quantity(c, u, caption)` is `Quantity(c, u)` with the caption stored -/
+theorem newQuantityC_eq (db : Db) (cat : Atom) (u : Sym) (cap : Atom) (cp : Sym) (h : capOf cap = .ok cp) :
+    newQuantityC db cat u cap
+      = (match newQuantity db cat u with
+         | .ok q => .ok (q.withCaption cp)
+         | .error e => .error e) := by
+  have h0 : capOf Atom.none = .ok 0 := rfl
+  simp only [newQuantity, newQuantityC, h, h0]
+  cases cat with
+  | str c f =>
+    simp only
+    cases hc : db.catByName c with
+    | none => rfl
+    | some ci =>
+      simp only
+      cases hu : checkedUnit db c u with
+      | error e => rfl
+      | ok u' =>
+        simp only [finishQuantityC]
+        cases db.getInfo ci.qtype u' true <;> rfl
+  | _ => rfl
+
+/-- a row appended to the list of its quantity type (`setdefault` + `append`) is what a search finds
+when no listed row matched before -/
+theorem find_after_append (p : UnitRow → Bool) (info : UnitRow) (q : Sym) (hp : p info = true) :
+    ∀ ts : List (Sym × List UnitRow), (ts.flatMap (·.2)).find? p = none →
+      ((Reg.tlModify (· ++ [info]) (Reg.tlSetDefault ts q) q).flatMap (·.2)).find? p = some info
+  | [], _ => by simp [Reg.tlSetDefault, Reg.tlGet, Reg.tlModify, hp]
+  | (k, l) :: ts, h => by
+    simp only [List.flatMap_cons, List.find?_append, Option.or_eq_none_iff] at h
+    by_cases hk : k = q
+    · subst hk
+      simp [Reg.tlSetDefault, Reg.tlGet, Reg.tlModify, List.find?_append, h.1, hp]
+    · have hsd : Reg.tlSetDefault ((k, l) :: ts) q = (k, l) :: Reg.tlSetDefault ts q := by
+        simp only [Reg.tlSetDefault, Reg.tlGet, hk, ↓reduceIte]
+        cases Reg.tlGet ts q <;> rfl
+      rw [hsd]
+      simp only [Reg.tlModify, hk, ↓reduceIte, List.flatMap_cons, List.find?_append, h.1, Option.none_or]
+      exact find_after_append p info q hp ts h.2
+
 end Barril.Ctor
